@@ -81,6 +81,7 @@ impl Item {
 #[derive(Clone, Debug)]
 enum Armed {
     RemoveSelfOnMessage,
+    ProbeOnDisconnected,
     RemoveListenerOnAccepted,
     SendOnConnected,
     RemoveSelfOnConnected,
@@ -95,12 +96,13 @@ struct World {
     notes: Vec<String>,
     closed_peers: Vec<SocketAddr>,
     leaks: Vec<String>,
+    configured: bool,
 }
 
 impl World {
     fn new() -> World {
         let (ctl, proc_) = network::split();
-        World { ctl, proc_, hist: vec![], armed: vec![], accepted: vec![], notes: vec![], closed_peers: vec![], leaks: vec![] }
+        World { ctl, proc_, hist: vec![], armed: vec![], accepted: vec![], notes: vec![], closed_peers: vec![], leaks: vec![], configured: false }
     }
     fn pump(&mut self, ms: u64) {
         // a receive batch never spans two pumps: mark the boundary for every adapter
@@ -142,16 +144,54 @@ impl World {
                     hist.push(Item::Remove(ep.resource_id(), r));
                 }
             }
-            NetEvent::Disconnected(ep) => hist.push(Item::EvDisconnected(ep.resource_id())),
+            NetEvent::Disconnected(ep) => {
+                hist.push(Item::EvDisconnected(ep.resource_id()));
+                if armed.iter().any(|a| matches!(a, Armed::ProbeOnDisconnected)) {
+                    // the endpoint is gone already while its Disconnected is being delivered
+                    let id = ep.resource_id();
+                    hist.push(Item::IsReady(id, ctl.is_ready(id)));
+                    hist.push(Item::Send(id, ctl.send(ep, &[1, 2, 3])));
+                    hist.push(Item::Remove(id, ctl.remove(id)));
+                }
+            }
         });
     }
+    /// `configured`: go through listen_with / connect_with with non-default configurations (keepalive
+    /// on the stream transports, address reuse and an explicit source address on Udp)
     fn listen(&mut self, t: Transport) -> (ResourceId, SocketAddr) {
-        let (id, addr) = self.ctl.listen(t, "127.0.0.1:0").unwrap();
+        use message_io::adapters::{framed_tcp::FramedTcpListenConfig, tcp::{TcpKeepalive, TcpListenConfig}, udp::UdpListenConfig};
+        use message_io::network::TransportListen;
+        let ka = || TcpKeepalive::new().with_time(Duration::from_secs(30));
+        let addr: SocketAddr = "127.0.0.1:0".parse().unwrap();
+        let (id, addr) = if self.configured {
+            match t {
+                Transport::Tcp => self.ctl.listen_with(TransportListen::Tcp(TcpListenConfig::default().with_keepalive(ka())), addr).unwrap(),
+                Transport::FramedTcp => self.ctl.listen_with(TransportListen::FramedTcp(FramedTcpListenConfig::default().with_keepalive(ka())), addr).unwrap(),
+                Transport::Udp => self.ctl.listen_with(TransportListen::Udp(UdpListenConfig::default().with_reuse_address()), addr).unwrap(),
+                _ => self.ctl.listen(t, addr).unwrap(),
+            }
+        }
+        else {
+            self.ctl.listen(t, addr).unwrap()
+        };
         self.hist.push(Item::Listen(id));
         (id, addr)
     }
     fn connect(&mut self, t: Transport, addr: SocketAddr) -> Endpoint {
-        let (ep, _) = self.ctl.connect(t, addr).unwrap();
+        use message_io::adapters::{framed_tcp::FramedTcpConnectConfig, tcp::{TcpConnectConfig, TcpKeepalive}, udp::UdpConnectConfig};
+        use message_io::network::TransportConnect;
+        let ka = || TcpKeepalive::new().with_time(Duration::from_secs(30));
+        let (ep, _) = if self.configured {
+            match t {
+                Transport::Tcp => self.ctl.connect_with(TransportConnect::Tcp(TcpConnectConfig::default().with_keepalive(ka())), addr).unwrap(),
+                Transport::FramedTcp => self.ctl.connect_with(TransportConnect::FramedTcp(FramedTcpConnectConfig::default().with_keepalive(ka())), addr).unwrap(),
+                Transport::Udp => self.ctl.connect_with(TransportConnect::Udp(UdpConnectConfig::default().with_source_address("127.0.0.1:0".parse().unwrap())), addr).unwrap(),
+                _ => self.ctl.connect(t, addr).unwrap(),
+            }
+        }
+        else {
+            self.ctl.connect(t, addr).unwrap()
+        };
         self.hist.push(Item::Connect(ep.resource_id()));
         ep
     }
@@ -235,6 +275,27 @@ fn peer_write(p: &mut RawPeer, t: Transport, n: usize) {
     }
 }
 
+/// raw bytes written behind tungstenite's back on an established WebSocket connection
+fn hostile_ws_frame(p: &mut RawPeer, kind: u64) {
+    if let RawPeer::Ws(s) = p {
+        let mut frame: Vec<u8> = match kind {
+            // binary frame announcing 2^63-1 bytes (64-bit length form), masked
+            0 => [vec![0x82, 0xFF], (i64::MAX as u64).to_be_bytes().to_vec(), vec![1, 2, 3, 4]].concat(),
+            // announcing 40 MiB: above the declared maximum, below anything absurd
+            1 => [vec![0x82, 0xFF], (40u64 << 20).to_be_bytes().to_vec(), vec![1, 2, 3, 4]].concat(),
+            // reserved bits and an unknown opcode
+            2 => vec![0xF3, 0x81, 1, 2, 3, 4, 9],
+            // a client frame that is not masked
+            3 => vec![0x82, 0x03, 1, 2, 3],
+            // a continuation frame without a message in progress
+            _ => vec![0x80, 0x81, 1, 2, 3, 4, 9],
+        };
+        frame.extend_from_slice(&[0u8; 16]);
+        let _ = s.get_mut().write_all(&frame);
+        let _ = s.get_mut().flush();
+    }
+}
+
 fn peer_local(p: &RawPeer) -> Option<SocketAddr> {
     match p {
         RawPeer::Tcp(s) => s.local_addr().ok(),
@@ -266,7 +327,8 @@ fn peer_end(p: RawPeer, reset: bool) {
 fn scenario_conn(w: &mut World, t: Transport, rng: &mut Rng) {
     let (lid, addr) = w.listen(t);
     w.armed.clear();
-    match rng.below(8) {
+    match rng.below(10) {
+        8 | 9 => w.armed.push(Armed::ProbeOnDisconnected),
         0 => w.armed.push(Armed::RemoveSelfOnMessage),
         1 => w.armed.push(Armed::RemoveListenerOnAccepted),
         2 => w.armed.push(Armed::SendOnConnected),
@@ -379,8 +441,16 @@ fn scenario_conn(w: &mut World, t: Transport, rng: &mut Rng) {
             6 => {
                 if !peers.is_empty() {
                     let i = rng.below(peers.len() as u64) as usize;
-                    for _ in 0..rng.range(1, 3) {
-                        peer_write(&mut peers[i], t, rng.range(0, 300) as usize);
+                    if t == Transport::Ws && rng.chance(1, 3) {
+                        // a hostile frame after a correct handshake: the node must end this endpoint
+                        // only (one Disconnected), never panic
+                        hostile_ws_frame(&mut peers[i], rng.below(5));
+                        w.pump(40);
+                    }
+                    else {
+                        for _ in 0..rng.range(1, 3) {
+                            peer_write(&mut peers[i], t, rng.range(0, 300) as usize);
+                        }
                     }
                 }
             }
@@ -476,6 +546,9 @@ fn wind_down(w: &mut World, lid: ResourceId, eps: &[Endpoint], mut peers: Vec<Ra
 fn scenario_endings(w: &mut World, t: Transport, k: u64, rng: &mut Rng) {
     let (lid, addr) = w.listen(t);
     w.armed.clear();
+    if k % 2 == 0 {
+        w.armed.push(Armed::ProbeOnDisconnected);
+    }
     let mut eps: Vec<Endpoint> = vec![];
     let mut peers: Vec<RawPeer> = vec![];
     let mut raw_listeners: Vec<TcpListener> = vec![];
@@ -519,7 +592,18 @@ fn scenario_endings(w: &mut World, t: Transport, k: u64, rng: &mut Rng) {
                 w.pump(30);
                 peer_write(&mut p, t, 5);
                 w.pump(30);
-                end_now(w, p, 2, false);
+                if t == Transport::Ws {
+                    // the end is a hostile frame (huge announced length) instead of a close
+                    hostile_ws_frame(&mut p, 0);
+                    w.pump(60);
+                    if let Some(a) = peer_local(&p) {
+                        w.closed_peers.push(a);
+                    }
+                    peers.push(p);
+                }
+                else {
+                    end_now(w, p, 2, false);
+                }
             }
         }
     }
@@ -533,6 +617,33 @@ fn scenario_endings(w: &mut World, t: Transport, k: u64, rng: &mut Rng) {
         }
     }
     wind_down(w, lid, &eps, peers.drain(..).collect(), raw_listeners, rng);
+}
+
+/// a connected Udp resource whose peer goes away (a send then bounces with ICMP port-unreachable and
+/// leaves ECONNREFUSED pending on the socket) and comes back on the same port: the resource must stay
+/// usable, deliver the new datagrams and never report Disconnected
+fn udp_absent_peer(w: &mut World, eps: &mut Vec<Endpoint>) {
+    let peer = UdpSocket::bind("127.0.0.1:0").unwrap();
+    let paddr = peer.local_addr().unwrap();
+    let (ep, local) = match w.ctl.connect(Transport::Udp, paddr) {
+        Ok(x) => x,
+        Err(_) => return,
+    };
+    w.hist.push(Item::Connect(ep.resource_id()));
+    eps.push(ep);
+    w.pump(20);
+    drop(peer);
+    w.send(ep, 5); // bounces
+    w.pump(30);
+    if let Ok(peer) = UdpSocket::bind(paddr) {
+        let _ = peer.send_to(b"first", local);
+        let _ = peer.send_to(b"second", local);
+        w.pump(40);
+        w.is_ready(ep.resource_id());
+        let _ = peer.send_to(b"third", local);
+        w.pump(30);
+    }
+    w.is_ready(ep.resource_id());
 }
 
 fn scenario_udp(w: &mut World, rng: &mut Rng) {
@@ -564,8 +675,12 @@ fn scenario_udp(w: &mut World, rng: &mut Rng) {
                     w.send(ep, 4);
                 }
             }
+            5 if rng.chance(1, 2) => udp_absent_peer(w, &mut eps),
             _ => w.pump(15),
         }
+    }
+    if eps.is_empty() || rng.chance(1, 3) {
+        udp_absent_peer(w, &mut eps);
     }
     w.pump(50);
     for ep in eps.iter() {
@@ -688,6 +803,8 @@ fn run_scenarios(out: &mut impl std::io::Write, seed: u64, n: u64) {
             [Transport::Tcp, Transport::FramedTcp, Transport::Ws, Transport::Udp][((i - ENDINGS) % 4) as usize]
         };
         let mut w = World::new();
+        w.configured = if fixed { (i / 3) % 2 == 1 } else { rng.chance(1, 3) };
+        let configured = w.configured;
         let fds_with_node = fds();
         let res = std::panic::catch_unwind(std::panic::AssertUnwindSafe(|| {
             if fixed {
@@ -703,7 +820,9 @@ fn run_scenarios(out: &mut impl std::io::Write, seed: u64, n: u64) {
         let fds_end = fds();
         let hist = std::mem::take(&mut w.hist);
         let leaks = std::mem::take(&mut w.leaks);
-        drop(w);
+        // a panic inside the network code can leave poisoned locks behind: dropping the node may panic again
+        let drop_res = std::panic::catch_unwind(std::panic::AssertUnwindSafe(move || drop(w)));
+        let res = if drop_res.is_err() { Err(Box::new("panic while dropping the node") as Box<dyn std::any::Any + Send>) } else { res };
         let fds_after = fds();
         let items: Vec<Item> = hist.iter().filter(|it| it.adapter() == t.id()).cloned().collect();
         let case = format!("net hist {}", items.iter().map(|i| i.token()).collect::<Vec<_>>().join(" "));
@@ -723,6 +842,9 @@ fn run_scenarios(out: &mut impl std::io::Write, seed: u64, n: u64) {
         let mut tags = vec![format!("{}", t)];
         if fixed {
             tags.push("ending".into());
+        }
+        if configured {
+            tags.push("configured".into());
         }
         if items.iter().any(|i| matches!(i, Item::EvConnected(_, false))) {
             tags.push("refused".into());
@@ -755,7 +877,11 @@ fn run_remove_race(out: &mut impl std::io::Write, t: Transport, n: usize, thread
     let mut task = listener.for_each_async(move |e| {
         if let NodeEvent::Network(ev) = e {
             match ev {
-                NetEvent::Disconnected(ep) => d2.lock().unwrap().push(ep.resource_id()),
+                NetEvent::Disconnected(ep) => {
+                    // a slow handler: a remove() racing this event must already lose
+                    std::thread::sleep(Duration::from_micros(300));
+                    d2.lock().unwrap().push(ep.resource_id())
+                }
                 NetEvent::Accepted(ep, _) => a2.lock().unwrap().push(ep),
                 _ => {}
             }
